@@ -543,8 +543,17 @@ func (m *pnftMonitor) AfterBlock(x *Exec) {
 		for _, p := range res.Pnfts {
 			got = append(got, p.Id)
 			single, err := x.C.App.PnftKeeper.GetPNFT(x.C.Ctx(), id, p.Id)
-			if err != nil || single.Owner != p.Owner || single.Name != p.Name || single.DenomId != p.DenomId {
-				x.Flag("C12-listing", fmt.Sprintf("PNFTs(%q) lists an item that disagrees with the single-item view", id))
+			if err != nil || single.String() != p.String() {
+				x.Flag("C12-listing", fmt.Sprintf("PNFTs(%q) lists an item that disagrees with the single-item view: %v / %v", id, p, single))
+			}
+			// what the single-item view reports must be what was minted (creator, name, description, uri, hash, data, time)
+			sk := fmt.Sprintf("%x", append(append(append([]byte{2}, id...), 0), p.Id...))
+			if was, ok := m.minted[sk]; ok && err == nil && !m.burned[sk] {
+				cur := strings.Join([]string{toks(single.DenomId), toks(single.Id), toks(single.Name), toks(single.Description), toks(single.Uri), toks(single.UriHash), toks(single.Data), toks(single.Creator),
+					fmt.Sprint(single.CreatedAt.UnixNano())}, "/")
+				if cur != was {
+					x.Flag("C12-immutable", "the PNFT query reports other metadata than what was minted: "+was+" -> "+cur)
+				}
 			}
 		}
 		sort.Strings(want)
